@@ -11,6 +11,7 @@ cp "$REPO/go.sum" go.sum
 mkdir -p bin
 $GO test -c -tags verif -o bin/kverif.test ./cmd/kverif
 rm -f bin/kverif
+$GO build -o bin/gentokens ./cmd/gentokens
 if [ -n "$KVERIF_RACE" ]; then
   CGO_ENABLED=1 $GO test -c -race -tags verif -o bin/kverif-race.test ./cmd/kverif
 fi
